@@ -196,7 +196,7 @@ func c08ExtSpecs(realMax int64) []extSpec {
 	add("trailing", "handshake + second dict", 0, "d1:v1:xed1:v1:ye")
 	add("trailing", "pex + junk", 2, "d5:added0:e\x00\x01\x02")
 	// declared string lengths with short bodies
-	for _, ln := range []string{"100", "4000", "70000", "1000000", "2147483647", "2147483648", "4294967296", "99999999999999999999", "-1", "-0", "00000000000000000002"} {
+	for _, ln := range []string{"2147483647", "100", "4000", "70000", "1000000", "2147483648", "4294967296", "99999999999999999999", "-1", "-0", "00000000000000000002"} {
 		add("declared-string-length", "handshake key length "+ln, 0, "d"+ln+":ab")
 		add("declared-string-length", "handshake v length "+ln, 0, "d1:v"+ln+":ab")
 		add("declared-string-length", "handshake unknown-key value length "+ln, 0, "d1:x"+ln+":ab")
@@ -213,7 +213,7 @@ func c08ExtSpecs(realMax int64) []extSpec {
 		add("nesting", fmt.Sprintf("metadata unknown key list depth %d", depth), 1, "d1:x"+nest("l", "e", depth, "")+"e")
 		add("nesting", fmt.Sprintf("pex unknown key list depth %d", depth), 2, "d1:x"+nest("l", "e", depth, "")+"e")
 	}
-	add("manyitems", "handshake unknown key list of 1300 ints", 0, "d1:xl"+strings.Repeat("i0e", 1300)+"ee")
+	add("nesting", "handshake unknown key list of 1300 ints", 0, "d1:xl"+strings.Repeat("i0e", 1300)+"ee")
 	// ut_metadata
 	types := []any{int64(0), int64(1), int64(2), int64(3), int64(-1), "1"}
 	pieces := []any{int64(0), int64(1), int64(1) << 18, int64(1)<<32 - 1, int64(1) << 32, int64(-1)}
@@ -713,7 +713,11 @@ func c08Work(job core.Job) json.RawMessage {
 	case "ext":
 		s := c08ExtSpecs(int64(realMax))[j.Index]
 		st := s.stream()
-		w.allCuts(c08ExtMax, st, j.Cuts >= 2 && len(st) <= c08TwoCutMax, j.From, j.To, rankBase, "extended message: "+s.Name, "ext."+s.Class)
+		cls := s.Class
+		if cls == "nesting" {
+			cls = "unknown-key-amplification" // values of keys nobody asked for are materialised (deep or long lists)
+		}
+		w.allCuts(c08ExtMax, st, j.Cuts >= 2 && len(st) <= c08TwoCutMax, j.From, j.To, rankBase, "extended message: "+s.Name, "ext."+cls)
 	case "deep":
 		// real default max message size; nesting as deep as the payload allows
 		payload := "d1:x" + strings.Repeat("l", j.Depth)
@@ -722,7 +726,7 @@ func c08Work(job core.Job) json.RawMessage {
 		}
 		st := append(append([]byte{}, c08V1...), refcodec.Extended(0, []byte(payload)).Encode()...)
 		st = append(st, c08V2...)
-		w.one(realMax, st, nil, rankBase, fmt.Sprintf("extension handshake with an unknown key holding lists nested %d deep (%d-byte payload)", j.Depth, len(payload)), "ext.nesting", false)
+		w.one(realMax, st, nil, rankBase, fmt.Sprintf("extension handshake with an unknown key holding lists nested %d deep (%d-byte payload)", j.Depth, len(payload)), "ext.unknown-key-amplification", false)
 	}
 	for _, v := range w.viol {
 		w.res.Viol = append(w.res.Viol, *v)
@@ -805,7 +809,7 @@ func TestC08Reader(t *testing.T) {
 		addJob(c08Job{Kind: "deep", Depth: d}, fmt.Sprintf("deep nesting %d", d))
 		rep.CountDistinct(fmt.Sprintf("deep:%d", d))
 	}
-	results := core.RunSharded("TestC08Reader", jobs, 120*time.Second)
+	results := core.RunSharded("TestC08Reader", jobs, 120*time.Second, "GOTRACEBACK=single")
 	sort.Slice(results, func(a, b int) bool { return results[a].ID < results[b].ID })
 	ag := newAgg()
 	ctr := map[string]int64{}
@@ -824,7 +828,7 @@ func TestC08Reader(t *testing.T) {
 			json.Unmarshal(jobs[r.ID].Data, &j)
 			cause := "other"
 			if strings.Contains(r.Crash, "stack overflow") || strings.Contains(r.Crash, "goroutine stack exceeds") ||
-				(strings.Contains(r.Crash, "zeebo/bencode") && strings.Contains(r.Crash, "decodeList")) {
+				(strings.Contains(r.Crash, "zeebo/bencode") && (strings.Contains(r.Crash, "decodeList") || strings.Contains(r.Crash, "decodeInto"))) {
 				cause = "bencode-nesting-stack-overflow"
 			}
 			if j.Kind == "deep" && (minCrashDepth < 0 || j.Depth < minCrashDepth) {
